@@ -255,12 +255,162 @@ def rule_sqlite_parens(spec, ospecs, res):
     return None
 
 
+def _flag_cols(spec, ospecs):
+    """columns carrying Column(index=True) / Column(unique=True) that an add_column / create_table op of this group adds"""
+    out = []
+    for o in ospecs:
+        t = spec["tables"][o["table"]] if "table" in o else None
+        if o["kind"] == "add_column":
+            c = t["columns"][o["column"]]
+            if c.get("index") or c.get("unique"):
+                out.append(c)
+        elif o["kind"] == "create_table":
+            out.extend(c for c in t["columns"] if c.get("index") or c.get("unique"))
+    return out
+
+
+def rule_column_flag(spec, ospecs, res):
+    # _render_column never renders index=True / unique=True; invoking AddColumnOp / CreateTableOp creates the index / constraint
+    cols = _flag_cols(spec, ospecs)
+    if not cols:
+        return None
+    # alembic writes a tab as four blanks and (pyformat dialects) doubles '%' in offline SQL
+    names = [v for c in cols for v in {c["name"], c["name"].replace("\t", "    "), c["name"].replace("%", "%%"), c["name"].replace("\t", "    ").replace("%", "%%")}]
+    bare = lambda x: re.sub(r"[\"`\[\]]", "", x)
+
+    def n(s):
+        keep = []
+        dropped = False
+        for st in s.split(" ;; "):
+            if dropped and st == "/":  # Oracle statement terminator of the statement just removed
+                dropped = False
+                continue
+            dropped = False
+            if re.match(r"CREATE (UNIQUE )?INDEX |ALTER TABLE .* ADD (CONSTRAINT .* )?UNIQUE ", st, re.S) and any(bare(nm) in bare(st) for nm in names):
+                dropped = True
+                continue
+            keep.append(st)
+        s = " ;; ".join(keep)
+        # inline form inside CREATE TABLE: `, UNIQUE (col)` / `, CONSTRAINT uq_... UNIQUE (col)`
+        for nm in names:
+            s = re.sub(r",\s*(CONSTRAINT \S+ )?UNIQUE \((\"|`|\[)?%s(\"|`|\])?\)" % re.escape(nm), "", s)
+        return s
+
+    return n
+
+
+def _fk_key_targets(spec, ospecs):
+    """(key, name) of referred columns with Column(key=...) in foreign keys of tables created by this group"""
+    out = []
+    for o in ospecs:
+        if o["kind"] != "create_table":
+            continue
+        for fk in spec["tables"][o["table"]].get("fks", []):
+            if fk.get("ghost") or fk.get("link_to_name"):
+                continue
+            rt = fk["reftable"]
+            rtab = spec["tables"][rt] if isinstance(rt, int) else [x for x in spec["tables"] if x["name"] == rt][0]
+            for c in rtab["columns"]:
+                if c.get("key") and c["name"] in fk["refcols"]:
+                    out.append((c["key"], c["name"]))
+    return out
+
+
+_IDENT = r'(?:"(?:[^"]|"")*"|`(?:[^`]|``)*`|\[[^\]]*\]|[^\s()."`\[]+)'
+_REF = _IDENT + r"(?:\." + _IDENT + r")*"
+
+
+def rule_fk_target_key(spec, ospecs, res):
+    # invoke side: CreateTableOp.to_table copies a foreign key through its colspec string, which holds the referred
+    # column's *key*; the emitted REFERENCES clause names the key instead of the column (the rendered code is right)
+    kn = _fk_key_targets(spec, ospecs)
+    if not kn:
+        return None
+
+    def n(s):
+        for key, name in kn:
+            s = re.sub(r"(\"|`|\[)?%s(\"|`|\])?" % re.escape(key), "\u00a7col", s)
+            for nm in sorted({x for v in (name, name.replace("%", "%%"), name.replace("\t", "    ")) for x in (v, v.replace('"', '""'), v.replace("`", "``"), v.replace("]", "]]"))}, key=len, reverse=True):
+                s = re.sub(r"REFERENCES (%s) \(((?:[^()]*, )?)(\"|`|\[)?%s(\"|`|\])?" % (_REF, re.escape(nm)), "REFERENCES \\1 (\\2\u00a7col", s, flags=re.S)
+        return s
+
+    return n
+
+
+def rule_fk_metadata_schema(spec, ospecs, res):
+    # invoke side: MetaData(schema=ms) makes a schema-less string target "tbl.col" mean ms.tbl (render._fk_colspec
+    # renders 'ms.tbl.col'); CreateTableOp.to_table copies the bare string into a schema-less MetaData: REFERENCES tbl
+    ms = spec["opts"].get("metadata_schema")
+    if not ms:
+        return None
+    for o in ospecs:
+        if o["kind"] == "create_table":
+            for fk in spec["tables"][o["table"]].get("fks", []):
+                if fk.get("ghost") and fk["ghost"].count(".") == 1:
+                    tbl = fk["ghost"].split(".")[0]
+                    if res["dialect"] == "sqlite":
+                        # SQLite omits a foreign key whose target is in another schema: the clause is present on one side only
+                        return lambda s: re.sub(r",\s*(CONSTRAINT (?:\"[^\"]*\"|\S+) )?FOREIGN KEY\([^)]*\) REFERENCES (\S+\.)?%s \([^)]*\)[^,()]*" % re.escape(tbl), "", s)
+                    return lambda s: re.sub(r"REFERENCES (\"%s\"|`%s`|\[%s\]|%s)\.%s " % ((re.escape(ms),) * 4 + (re.escape(tbl),)), "REFERENCES %s " % tbl, s)
+    return None
+
+
+# exec raises / invoke raises: (finding id, predicate)
+def err_exclude_expression(spec, ospecs, res):
+    # CreateExcludeConstraintOp.to_constraint appends Column(name, NULLTYPE) for every element: name is None for an expression
+    err = res.get("error") or ""
+    # (exec stops at the first failing statement: when a later op of the same group makes invoke fail too, the kind is
+    # exec-differs-from-invoke-error and the message carries both exceptions)
+    exec_fails_here = (res["kind"] == "exec-error" and "non-blank name" in err) or (
+        res["kind"] == "exec-differs-from-invoke-error" and "exec: ArgumentError('Column must be constructed with a non-blank name" in err)
+    return (exec_fails_here and res["dialect"] == "postgresql"
+            and any(o["kind"] == "create_exclude" and any(isinstance(e[0], dict) for ex in spec["tables"][o["table"]].get("excludes", []) for e in ex["elems"])
+                    for o in ospecs))
+
+
+def err_column_flag_sqlite(spec, ospecs, res):
+    return (res["kind"] == "exec-differs-from-invoke-error" and res["dialect"] == "sqlite"
+            and ("No support for ALTER of constraints in SQLite" in (res.get("error") or "")
+                 or ("batch mode with dialect sqlite requires a live database connection" in (res.get("error") or "") and spec["opts"].get("render_as_batch")))
+            and "exec: None" in (res.get("error") or "")
+            and any(o["kind"] == "add_column" and (spec["tables"][o["table"]]["columns"][o["column"]].get("unique")
+                                                   or spec["tables"][o["table"]]["columns"][o["column"]].get("index")) for o in ospecs))
+
+
+def err_keyed_column_copy(spec, ospecs, res):
+    # invoke side: alembic's schemaobj rebuilds a Table for the op (DropTableOp.to_table with a self-referential string
+    # foreign key, CreateIndexOp.to_index with postgresql_include, ...) and adds a column *named* like an existing column
+    # whose .key differs from its name: DuplicateColumnError on invoke; the rendered code executes
+    err = res.get("error") or ""
+    if not (res["kind"] == "exec-differs-from-invoke-error" and "DuplicateColumnError" in err and "exec: None" in err):
+        return False
+    # the message reaches us as repr(exception): quote style and backslash escapes vary
+    m = re.search(r"A column with name \\?'(.*?)\\?' is already present in table", err, re.S)
+    if not m:
+        return False
+    bare = lambda x: re.sub(r"[\\\\'\"]", "", x)
+    dup = bare(m.group(1))
+    for o in ospecs:
+        if "table" in o and any(c.get("key") and bare(repr(c["name"])[1:-1]) == dup for c in spec["tables"][o["table"]]["columns"]):
+            return True
+    return False
+
+
+ERR_RULES = [
+    ("C08-N13-exclude-constraint-expression-not-executable", err_exclude_expression),
+    ("C08-N12-column-index-unique-flag-not-rendered", err_column_flag_sqlite),
+    ("C08-N15-column-key-breaks-invoke-side-table-copy", err_keyed_column_copy),
+]
+
 # finding id -> rule; order = order of application
 RULES = [
     # structure-aware normalisers first, character-level ones last
     ("C08-N11-type-bound-check-duplicated-by-invoke", rule_dup_check),
     ("C08-N5-mssql-default-constraint-not-dropped", rule_mssql_default_drop),
     ("C08-N7-pg-drop-table-enum-type", rule_pg_drop_enum),
+    ("C08-N12-column-index-unique-flag-not-rendered", rule_column_flag),
+    ("C08-N16-fk-target-key-emitted-by-invoke", rule_fk_target_key),
+    ("C08-N17-fk-target-loses-metadata-schema-on-invoke", rule_fk_metadata_schema),
     ("C08-N6-add-column-primary-key-not-rendered", rule_pk_add_column),
     ("C08-N8-quote-flag-dropped", rule_quote_flag),
     ("C08-N1-percent-doubled", rule_percent),
@@ -284,7 +434,10 @@ def explain(spec, ospecs, res):
     app = [(fid, fn(spec, ospecs, res)) for fid, fn in RULES]
     app = [(fid, n) for fid, n in app if n is not None]
     if kind != "sql-mismatch":
-        # no open finding explains a SyntaxError / exec error / Spec.Render.textDenotes failure
+        # a SyntaxError / Spec.Render failure is never explained; exec / invoke errors only by the narrow ERR_RULES
+        for fid, pred in ERR_RULES:
+            if pred(spec, ospecs, res):
+                return fid
         return None
     bq = res["dialect"] == "mssql"
     a = rx.normalise_sql(res["sql_exec"], True, bq)
@@ -320,7 +473,8 @@ def classify(failure):
     spec = inp.get("spec")
     if not spec or "ospecs" not in inp:
         return None
-    res = {"kind": impl.get("kind"), "dialect": inp.get("dialect"), "sql_exec": impl.get("sql_exec") or "", "sql_invoke": impl.get("sql_invoke") or ""}
+    res = {"kind": impl.get("kind"), "dialect": inp.get("dialect"), "sql_exec": impl.get("sql_exec") or "", "sql_invoke": impl.get("sql_invoke") or "",
+           "error": impl.get("error") or ""}
     try:
         return explain(spec, inp["ospecs"], res)
     except Exception:
@@ -403,7 +557,8 @@ def flush_model(ctx, pending):
 
 def oracle_case(ctx, case):
     spec = case.spec
-    for res in rx.oracle(case):
+    results = rx.oracle(case)
+    for res in results:
         ctx.evaluation()
         ctx.hist("oracle", res["kind"])
         ctx.hist("dialect", res["dialect"])
@@ -421,6 +576,71 @@ def oracle_case(ctx, case):
                      impl={k: res[k] for k in ("kind", "op_kind", "text", "sql_exec", "sql_invoke", "error")}, tags=[res["kind"], res["dialect"]])
         elif res["kind"] == "ok":
             ctx.trace_ok()
+    return results
+
+
+def body_check(ctx, case, results, k):
+    """the path a migration file really takes: render_python_code / _render_cmd_body (PythonPrinter
+    indentation, `pass` for an empty body) and _render_python_into_templatevars / _indent (the text
+    pasted under `def upgrade():`), executed on one dialect and compared with the per-op executions"""
+    from alembic.operations import ops as am_ops
+
+    spec = case.spec
+    allowed = spec.get("dialects") or list(rx.DIALECTS)
+    d = allowed[k % len(allowed)]
+    per = [r for r in results if r["dialect"] == d]
+    if len(per) != len(case.ops) or any(r["kind"] not in ("ok", "sql-mismatch") for r in per):
+        ctx.hist("body", "skipped (an op is not executable on %s)" % d)
+        return
+    sopts = spec.get("opts", {})
+    as_batch = case.render_opts["render_as_batch"]
+    tm = case.metadata if sopts.get("target_metadata") else None
+    bq = d == "mssql"
+    # reference: the per-op texts executed one after the other in ONE context (a context remembers e.g. which
+    # PostgreSQL ENUM types it already created, so separate contexts are not comparable with one body)
+    ump = sopts.get("user_module_prefix")
+    ref_sql, ref_ek, ref_err = rx.sql_of_exec("".join(r["code"] for r in per), d, tm, user_module_prefix=ump)
+    if ref_ek is not None:
+        ctx.hist("body", "skipped (ops not executable in sequence on %s)" % d)
+        return
+    want = rx.normalise_sql(ref_sql, False, bq)
+    inp = {"spec": spec, "index": 0, "ospecs": [o for l in case.op_specs for o in l], "dialect": d}
+    try:
+        from alembic.autogenerate import render_python_code
+
+        actx = rx.autogen_context(d, as_batch, sopts.get("render_item"), sopts.get("user_module_prefix"))
+        # the public entry point (api.render_python_code -> _render_cmd_body)
+        body = render_python_code(am_ops.UpgradeOps(ops=list(case.ops)), render_as_batch=as_batch,
+                                  render_item=actx.opts.get("render_item"), migration_context=actx.migration_context,
+                                  user_module_prefix=sopts.get("user_module_prefix"))
+        targs = {}
+        script = am_ops.MigrationScript(None, am_ops.UpgradeOps(ops=list(case.ops)), am_ops.DowngradeOps(ops=[]))
+        am_render._render_python_into_templatevars(rx.autogen_context(d, as_batch, sopts.get("render_item"), sopts.get("user_module_prefix")), script, targs)
+    except Exception as e:
+        ctx.fail(inp, "body-render-error: _render_cmd_body/_render_python_into_templatevars raised %r although every op renders" % (e,),
+                 impl={"kind": "body-render-error", "error": repr(e)}, tags=["body"])
+        return
+    # both results are already _indent()ed for pasting under `def upgrade():`
+    texts = [("render_python_code", "def upgrade():\n    %s\n" % body, "upgrade"),
+             ("templatevars", "def upgrade():\n    %s\n\n\ndef downgrade():\n    %s\n" % (targs["upgrades"], targs["downgrades"]), "upgrade")]
+    for label, text, call in texts:
+        ctx.evaluation()
+        sql, ek, err = rx.sql_of_exec(text, d, tm, call=call, user_module_prefix=ump)
+        got = rx.normalise_sql(sql, False, bq)
+        if ek is not None or got != want:
+            ctx.fail(inp, "body-mismatch: the %s text of the whole upgrade body does not execute like its operations one by one on %s" % (label, d),
+                     impl={"kind": "body-mismatch", "text": text, "sql_exec": sql, "sql_invoke": want, "error": repr(err), "op_kind": label}, tags=["body", d])
+        else:
+            ctx.trace_ok()
+            ctx.hist("body", label + " ok")
+
+
+def one_case(ctx, spec, k, pending):
+    case = rg.build(spec)
+    model_compare(ctx, case, pending)
+    results = oracle_case(ctx, case)
+    body_check(ctx, case, results, k)
+    return case
 
 
 def run(ctx, n_cases=None, rng_name="main"):
@@ -428,6 +648,16 @@ def run(ctx, n_cases=None, rng_name="main"):
     render_py.run_py(ctx, 20000 if ctx.thorough else 3000)
     rng = ctx.rng(rng_name)
     pending = []
+    if rng_name == "main":
+        import copy
+
+        for name, bspec in rg.battery():
+            for b in (False, True):
+                s = copy.deepcopy(bspec)
+                s["opts"]["render_as_batch"] = b
+                ctx.hist("battery", name)
+                one_case(ctx, s, 1 if b else 0, pending)
+        flush_model(ctx, pending)
     for k in range(n):
         spec = rg.gen_spec(rng, ctx.thorough)
         case = rg.build(spec)
@@ -440,7 +670,11 @@ def run(ctx, n_cases=None, rng_name="main"):
                 for e in ix["elems"]:
                     ctx.hist("index_elem", "+".join(sorted(k for k in e)))
         model_compare(ctx, case, pending)
-        oracle_case(ctx, case)
+        results = oracle_case(ctx, case)
+        body_check(ctx, case, results, k)
+        for key in ("render_item", "user_module_prefix", "target_metadata", "metadata_schema"):
+            if spec["opts"].get(key):
+                ctx.hist("opts_extra", "%s=%s" % (key, spec["opts"][key]))
         if k < 3:
             texts = [am_render.render_op_text(rm.make_actx("default", case.render_opts["render_as_batch"]), o) for o in case.ops[:2]]
             ctx.sample({"op_kinds": case.op_kinds, "rendered": texts})
@@ -466,7 +700,7 @@ def _shrink_new(ctx, limit=3):
             for res in rx.oracle(c, dialects=(d,)):
                 if res["kind"] == kind:
                     f2 = {"input": {"spec": cand, "index": res["index"], "ospecs": c.op_specs[res["index"]], "dialect": d},
-                          "impl": {k: res[k] for k in ("kind", "sql_exec", "sql_invoke")}}
+                          "impl": {k: res[k] for k in ("kind", "sql_exec", "sql_invoke", "error")}}
                     if classify(f2) is None:
                         return True
             return False
@@ -496,7 +730,7 @@ def check_witness(ctx, finding):
     for res in rx.oracle(case, dialects=tuple(w.get("dialects") or rx.DIALECTS)):
         if res["kind"] in KINDS_FAIL:
             fl = {"input": {"spec": w["spec"], "index": res["index"], "ospecs": case.op_specs[res["index"]], "dialect": res["dialect"]},
-                  "impl": {k: res[k] for k in ("kind", "sql_exec", "sql_invoke")}}
+                  "impl": {k: res[k] for k in ("kind", "sql_exec", "sql_invoke", "error")}}
             if classify(fl) == finding["id"]:
                 return "%s on %s: %s" % (res["kind"], res["dialect"], (res["text"] or "")[:120])
     return None
@@ -510,7 +744,7 @@ def replay(ctx, case):
         if res["index"] != inp.get("index", res["index"]):
             continue
         fl = {"input": {"spec": inp["spec"], "index": res["index"], "ospecs": c.op_specs[res["index"]], "dialect": res["dialect"]},
-              "impl": {k: res[k] for k in ("kind", "sql_exec", "sql_invoke")}}
+              "impl": {k: res[k] for k in ("kind", "sql_exec", "sql_invoke", "error")}}
         out.append({"dialect": res["dialect"], "kind": res["kind"], "rendered": res["text"], "sql_exec": res["sql_exec"],
                     "sql_invoke": res["sql_invoke"], "error": res["error"], "known_finding": classify(fl)})
     pend = []
